@@ -3140,7 +3140,8 @@ class TypedDictType(ProperType):
     def write(self, data: WriteBuffer) -> None:
         write_tag(data, TYPED_DICT_TYPE)
         self.fallback.write(data)
-        write_type_map(data, self.items)
+        # Keep declaration order (like the JSON format does): it is the order used in every message.
+        write_type_map(data, self.items, sort=False)
         write_str_list(data, sorted(self.required_keys))
         write_str_list(data, sorted(self.readonly_keys))
         write_bool(data, self.is_closed)
@@ -4595,10 +4596,10 @@ def read_type_map(data: ReadBuffer) -> dict[str, Type]:
     return {read_str_bare(data): read_type(data) for _ in range(size)}
 
 
-def write_type_map(data: WriteBuffer, value: dict[str, Type]) -> None:
+def write_type_map(data: WriteBuffer, value: dict[str, Type], sort: bool = True) -> None:
     write_tag(data, DICT_STR_GEN)
     write_int_bare(data, len(value))
-    for key in sorted(value):
+    for key in sorted(value) if sort else list(value):
         write_str_bare(data, key)
         value[key].write(data)
 
